@@ -42,6 +42,7 @@ type peerEnd struct {
 	gotID   chan struct{} // closed when the router's identity message arrived (dialled connections)
 	eofSeen int32
 	stall   int32         // the peer stops reading (set by the harness)
+	parked  int32         // ... and is now waiting to be resumed
 	resume  chan struct{} // closed to let it read again
 }
 
@@ -268,7 +269,9 @@ func (pe *peerEnd) readLoop() {
 	first := true
 	for {
 		if atomic.LoadInt32(&pe.stall) == 1 {
+			atomic.StoreInt32(&pe.parked, 1)
 			<-pe.resume
+			atomic.StoreInt32(&pe.parked, 0)
 		}
 		env, err := pe.conn.Receive()
 		if err != nil {
@@ -355,7 +358,12 @@ func (e *renv) trackDial(res *opResult, peer int, gate *lib.Gate) bool {
 			select {
 			case pc := <-e.peers[peer].accepted:
 				rec.pe = newPeerEnd(pc, true)
-				waitCh(rec.pe.gotID, opDeadline)
+				// the identity message, or the end of a connection that was refused and closed at once
+				select {
+				case <-rec.pe.gotID:
+				case <-rec.pe.eof:
+				case <-time.After(opDeadline):
+				}
 			case <-time.After(opDeadline):
 			}
 		}
@@ -666,7 +674,7 @@ func (e *renv) runMacro(m mac, seqNo int) error {
 			}
 			return nil
 		}
-		if len(e.heldMsg) == 0 {
+		if !e.stopMayBlock() {
 			waitCh(res.done, opDeadline)
 		}
 	case "stoprelease":
@@ -676,7 +684,7 @@ func (e *renv) runMacro(m mac, seqNo int) error {
 		}
 		delete(e.heldStop, m.A)
 		g.Release()
-		if len(e.heldMsg) == 0 {
+		if !e.stopMayBlock() {
 			waitCh(e.stops[m.A].done, opDeadline)
 		}
 	case "peerclose":
@@ -713,9 +721,24 @@ func (e *renv) runMacro(m mac, seqNo int) error {
 			})
 		}
 	default:
-		return fmt.Errorf("unknown macro %q", m.Op)
+		panic("unknown macro " + m.Op)
 	}
 	return nil
+}
+
+// stopMayBlock: a dispatch in progress or a Listen callback held after beginNegotiation keeps
+// a wait-group slot, so a Stop legitimately waits for it: the harness then does not wait for
+// that Stop here (its result is taken at the end of the script).
+func (e *renv) stopMayBlock() bool {
+	if len(e.heldMsg) > 0 {
+		return true
+	}
+	for idx := range e.heldIn {
+		if idx < len(e.conns) && !e.conns[idx].heldAcc {
+			return true
+		}
+	}
+	return false
 }
 
 func (e *renv) isHeldSetup(rec *connRec) bool {
@@ -736,7 +759,7 @@ func (e *renv) settleStops() {
 		if _, held := e.heldStop[i]; held {
 			continue
 		}
-		if len(e.heldMsg) == 0 {
+		if !e.stopMayBlock() {
 			waitCh(s.done, opDeadline)
 		}
 	}
@@ -821,7 +844,7 @@ func (e *renv) finish(msgConn map[int]int) robsJSON {
 		o.Stops = append(o.Stops, waitCh(s.done, opDeadline))
 	}
 	// let the handler goroutines finish their deferred close; leaked endpoints stay open
-	deadline := time.Now().Add(150 * time.Millisecond)
+	deadline := time.Now().Add(time.Second) // only spent when something really stays open
 	for time.Now().Before(deadline) {
 		all := true
 		for _, c := range e.conns {
@@ -873,11 +896,17 @@ func (e *renv) finish(msgConn map[int]int) robsJSON {
 	return o
 }
 
+// connOpen: the router's endpoint counts as open unless BOTH the router's own bookkeeping says
+// closed and the peer has seen the connection end (a Close that only sets a flag is not a close).
 func (e *renv) connOpen(c *connRec) bool {
+	peerSees := c.pe != nil && !c.peerClosed && atomic.LoadInt32(&c.pe.stall) == 0
 	if c.our != nil {
 		closed, known := network.VerifConnClosed(c.our)
 		if known {
-			return !closed
+			if !closed {
+				return true
+			}
+			return peerSees && atomic.LoadInt32(&c.pe.eofSeen) == 0
 		}
 	}
 	if c.pe != nil {
@@ -1001,7 +1030,9 @@ func runScript(in input) lib.Case {
 	defer e.cleanup()
 	msgConn := map[int]int{}
 	var scenarioErr string
+	executed := 0
 	for i, m := range in.Script {
+		executed = i + 1
 		switch m.Op {
 		case "send", "sendhold", "sendholdreg":
 			e.sendPeer = append(e.sendPeer, m.A)
@@ -1017,15 +1048,21 @@ func runScript(in input) lib.Case {
 	}
 	o := e.finish(msgConn)
 	o.Err = scenarioErr
+	class := scriptClass(in)
+	script := in.Script
 	if scenarioErr != "" {
-		// the forced interleaving could not be set up: not a verdict about the property
-		return lib.Case{Discard: true, Obs: o}
+		// Something the implementation always does on the unchanged tree (reach a schedule point,
+		// dispatch a delivered message, ...) did not happen within the deadline. That is an
+		// observation: the prefix executed so far - including the step that did not complete - is
+		// evaluated against the model and the property, nothing is discarded.
+		class += "+cut"
+		script = in.Script[:executed]
 	}
-	ms := make([]string, len(in.Script))
-	for i, m := range in.Script {
+	ms := make([]string, len(script))
+	for i, m := range script {
 		ms[i] = coqMacro(m)
 	}
 	coq := fmt.Sprintf("RouterScript %s %s %s", lib.Bool(in.TCP), lib.List(ms), coqRobs(o))
-	return lib.Case{Coq: coq, Class: scriptClass(in), Obs: o, Nontrivial: len(e.conns) > 0,
+	return lib.Case{Coq: coq, Class: class, Obs: o, Nontrivial: len(e.conns) > 0,
 		Key: fmt.Sprint(in.TCP, ms)}
 }
